@@ -20,7 +20,6 @@ ASSUMPTIONS = ["std::basic_string_view of libstdc++ 12 is the reference for spec
                "views are modelled as lists of unsigned code units; the character type is a parameter of the harness only"]
 TRUSTED = ["hand model Tetl/C08/Model.lean tied to the source by the correspondence run (R1) on every run",
            "spec Tetl/C08/Spec.lean validated against libstdc++ (R2) on every run"]
-THEOREMS = {}
 SEARCH_CAP = 600000
 
 SEARCH_OPS = ["find", "rfind", "find_first_of", "find_last_of", "find_first_not_of", "find_last_not_of"]
@@ -170,5 +169,16 @@ LEVEL_NOTE = ("Trusted: Lean kernel + propext/Classical.choice/Quot.sound; the h
               "g++-12/ASan; libstdc++ as oracle for spec validation. Members without a theorem yet are listed in evidence "
               "coverage.correspondence_only and are covered by the differential run only.")
 # members modelled and compared on every run but without a Lean theorem yet
-CORRESPONDENCE_ONLY = ["find", "rfind", "find_first_of", "find_last_of", "find_first_not_of", "find_last_not_of",
-                       "substr", "copy", "starts_with", "ends_with", "contains", "remove_prefix", "remove_suffix"]
+CORRESPONDENCE_ONLY = []
+THEOREMS = {
+    "find": ["Tetl.C08.Props.find_eq"], "rfind": ["Tetl.C08.Props.rfind_eq", "Tetl.C08.Props.rfind_char_eq"],
+    "find_first_of": ["Tetl.C08.Props.find_first_of_eq"], "find_last_of": ["Tetl.C08.Props.find_last_of_eq"],
+    "find_first_not_of": ["Tetl.C08.Props.find_first_not_of_eq", "Tetl.C08.Props.find_first_not_of_char_eq"],
+    "find_last_not_of": ["Tetl.C08.Props.find_last_not_of_eq"],
+    "compare": ["Tetl.C08.Props.compare_eq", "Tetl.C08.Props.compare3_eq", "Tetl.C08.Props.compare5_eq"],
+    "rel": ["Tetl.C08.Props.viewEq_eq", "Tetl.C08.Props.compare_eq"],
+    "starts_with": ["Tetl.C08.Props.starts_with_eq", "Tetl.C08.Props.starts_with_char_eq"],
+    "ends_with": ["Tetl.C08.Props.ends_with_eq", "Tetl.C08.Props.ends_with_char_eq"],
+    "contains": ["Tetl.C08.Props.contains_eq"], "substr": ["Tetl.C08.Props.substr_eq"], "copy": ["Tetl.C08.Props.copy_eq"],
+    "remove_prefix": ["Tetl.C08.Props.remove_prefix_eq"], "remove_suffix": ["Tetl.C08.Props.remove_suffix_eq"],
+}
